@@ -40,6 +40,9 @@ type Scenario struct {
 	Check func(w *World, x *Exec) []Violation
 	// Desc is a human-readable description used in evidence samples.
 	Desc string
+	// Heavy scenarios are explored by all workers together (sharded by first deviation)
+	// instead of being assigned to one worker.
+	Heavy bool
 }
 
 // Violation of a property in one execution.
@@ -90,8 +93,22 @@ func levelActive(o *Options) func(kind, site string) bool {
 	focus := func(site string) bool {
 		i := strings.LastIndexByte(site, ':')
 		fn := site[i+1:]
+		// "(*tunnelChannel).newStream.func1" / "(*defaultReceiver[...]).dequeue" -> method name
+		for {
+			j := strings.LastIndexByte(fn, '.')
+			if j < 0 {
+				break
+			}
+			last := fn[j+1:]
+			if strings.HasPrefix(last, "func") || last == "" || (last[0] >= '0' && last[0] <= '9') {
+				fn = fn[:j]
+				continue
+			}
+			fn = last
+			break
+		}
 		for _, f := range o.Focus {
-			if fn == f || strings.HasSuffix(fn, "."+f) || strings.Contains(fn, f) {
+			if fn == f {
 				return true
 			}
 		}
